@@ -61,6 +61,32 @@ def dataset_specs(tier: str, purpose: str) -> list[dict]:
             {'family': 'ugrid', 'mesh': 'M8', 'supplied': ['face_face'], 'fill': 'fillattr'},
             {'family': 'ugrid', 'mesh': 'M9', 'supplied': ['edge_node', 'edge_face'], 'transposed': True},
         ]
+    # datasets and conventions that have been used, copied, pickled, saved or chunked before being clipped
+    specs += [
+        {'family': 'ugrid', 'mesh': 'M1', 'supplied': ['edge_node', 'edge_face'], 'two_dim': 'nv', 'start_index': 1},
+        {'family': 'ugrid', 'mesh': 'M4', 'supplied': ['edge_node'], 'two_dim': 'nv', 'nt': 2, 'nk': 2},
+    ]
+    specs += [
+        # coordinates packed as scaled integers, with missing corners, held as xarray coordinates
+        {'family': 'shoc_standard', 'nj': 3, 'ni': 3, 'dry': 'corner', 'coords_as': 'coord', 'pack_coords': True},
+        {'family': 'cf2d', 'ny': 3, 'nx': 3, 'geometry': 'skew', 'holes': 'corner', 'coords_as': 'coord', 'pack_coords': True},
+        # conventions constructed by hand for the coordinates autodetection finds as well: the clipped dataset is detected afresh
+        {'family': 'cf1d', 'ny': 3, 'nx': 4, 'bounds': 'var', 'explicit_names': True},
+        {'family': 'cf2d', 'ny': 3, 'nx': 3, 'geometry': 'skew', 'explicit_names': True},
+    ]
+    # no records yet (a grid or template file with an unlimited time axis), and a single record
+    specs += [
+        {'family': 'cf1d', 'ny': 3, 'nx': 3, 'nt': 0, 'ints': True},
+        {'family': 'cf2d', 'ny': 3, 'nx': 3, 'geometry': 'skew', 'nt': 0},
+        {'family': 'shoc_standard', 'nj': 3, 'ni': 3, 'nt': 0, 'dry': 'corner'},
+        {'family': 'ugrid', 'mesh': 'M4', 'nt': 0},
+        {'family': 'shoc_simple', 'ny': 3, 'nx': 3, 'nt': 1, 'nk': 1},
+    ]
+    for s in builders.history_specs(tier):
+        if s.get('explicit_names'):
+            continue    # a clipped dataset is a new dataset, detected afresh: not the hand-bound grid any more
+        if not quick or (s['history'] in (['warm'], ['pickle'], ['chunk']) and s['family'] in ('cf2d', 'shoc_standard', 'ugrid')):
+            specs.append(s)
     return specs
 
 
@@ -141,6 +167,10 @@ def run_pipelines(case: dict, tmp: str):
     polys = ref.ref_polygons(truth_a)
     geoms, _ = c07.palette(truth_a, polys)
     geom = geoms[case['geometry']]
+    if not any(p is not None and not isinstance(p, str) and p.intersects(geom) for p in polys):
+        # the geometry touches no cell of this dataset (the hole of 'with-hole' swallows a two-cell mesh):
+        # there is nothing to keep, and whether that is refused or how is not part of these properties
+        return
 
     try:
         conv_a = lib(lambda: ds_a.ems)
@@ -156,11 +186,19 @@ def run_pipelines(case: dict, tmp: str):
         out = lib(out.load)
         return out
 
+    # what the mask says is read from copies taken before its first use (a mask is made once and applied to
+    # many files; applying it must not depend on, or change, what an earlier application left behind)
+    pristine = mask.copy(deep=True)
     try:
         out = apply(ds_a, mask, 'direct')
     except LibraryRaised as err:
         out = err
-    yield 'direct', ds_a, truth_a, mask, out
+    yield 'direct', ds_a, truth_a, pristine, out
+    try:
+        out = apply(ds_b, mask, 'direct-again')
+    except LibraryRaised as err:
+        out = err
+    yield 'direct-again', ds_b, truth_b, pristine, out
 
     mask_path = os.path.join(tmp, 'mask.nc')
     try:
@@ -173,12 +211,12 @@ def run_pipelines(case: dict, tmp: str):
         out = apply(ds_a, mask2, 'reloaded')
     except LibraryRaised as err:
         out = err
-    yield 'reloaded', ds_a, truth_a, mask2, out
+    yield 'reloaded', ds_a, truth_a, pristine, out
     try:
         out = apply(ds_b, mask2, 'other')
     except LibraryRaised as err:
         out = err
-    yield 'other', ds_b, truth_b, mask2, out
+    yield 'other', ds_b, truth_b, pristine, out
 
 
 # ---------------------------------------------------------------------------------------------
